@@ -17,7 +17,15 @@ CONSTANTS
   OffFwdB,     \* role fwd: set of ed - H0 for the dead-peer timelines (C, an LDK node, accepts those)
   Deltas,      \* cltv_expiry_delta values configured at B
   Slack1,      \* eu - ed - d + 1  (TLC cfg files cannot hold negative numbers)
-  FarProbe     \* set of eu - H0 - FAR probed around the far-far-away limit
+  FarProbe,    \* set of eu - H0 - FAR probed around the far-far-away limit
+  ProbeDeltas, \* further cltv_expiry_delta values configured at B (below the minimum: documented to be
+               \* floored; well above it), for the acceptance probes only
+  ProbeOffD,   \* acceptance probes: set of ed - H0 (comfortable: C accepts those)
+  OffSoon,     \* set of ed - H0 from "expires with this block" to just above the grace period, probed
+               \* with an incoming expiry that is far enough away
+  BigHops      \* eu - ed - Max(d, MIND) of those probes
+
+ASSUME ProbeDeltas \cap Deltas = {}
 
 \* ------------------------------------------------------------ rules transcribed from the code
 \* (hh = best block height known to the node)
@@ -58,7 +66,9 @@ Init ==
   /\ role \in {"final", "fwd"} /\ upMode \in {"honest", "silent"}
   /\ dnMode \in {"offchain", "silent", "early", "onchain", "cell"}
   /\ Scenario(role, upMode, dnMode)
-  /\ d \in Deltas /\ (role = "final" => d = MIND)
+  /\ d \in Deltas \cup ProbeDeltas /\ (role = "final" => d = MIND)
+  \* the other configured deltas: acceptance probes only (decided at once, C answers at once)
+  /\ d \in ProbeDeltas => (role = "fwd" /\ upMode = "honest" /\ dnMode = "offchain")
   /\ eu = 0 /\ ed = 0 /\ dl = 0 /\ up = "none" /\ upH = -1 /\ pre = FALSE /\ preLate = FALSE
   /\ dn = "none" /\ dnH = -1 /\ xH = -1 /\ cD = "open" /\ cDb = -1 /\ cDc = -1 /\ toB = -1
   /\ cU = "open" /\ cUb = -1 /\ cUc = -1 /\ suB = -1 /\ suC = -1 /\ lost = FALSE /\ viol = ""
@@ -69,11 +79,20 @@ CHolds == CodeFinalAccept(H0, ed)
 
 MOffer ==
   \/ role = "final" /\ \E o \in OffFinal : Offer(h + o, 0)
-  \/ role = "fwd" /\ \E od \in OffFwdA \cup OffFwdB, s \in Slack1 :
+  \/ role = "fwd" /\ d \in Deltas /\ \E od \in OffFwdA \cup OffFwdB, s \in Slack1 :
         /\ (dnMode \in {"silent", "onchain"} \/ upMode = "silent") => od \in OffFwdB
         /\ Offer(h + od + d + s - 1, h + od)
   \/ role = "fwd" /\ dnMode = "offchain" /\ upMode = "honest" /\ d = MIND
         /\ \E f \in FarProbe : Offer(h + FAR + f, h + FAR + f - d)
+  \* acceptance probes: the sender builds the onion itself and leaves B a hop delta (eu - ed) around
+  \* the delta B is configured with and around the hard minimum, whatever B advertises
+  \* (for the deltas of the window Deltas these are the offers of the first disjunct)
+  \/ role = "fwd" /\ dnMode = "offchain" /\ upMode = "honest" /\ d \in ProbeDeltas
+        /\ \E od \in ProbeOffD, hop \in {d - 1, d, d + 1, MIND - 1, MIND, MIND + 1} : Offer(h + od + hop, h + od)
+  \* ... and an outgoing expiry at / around the grace period while the incoming one is far away (a
+  \* payment that was stuck upstream, a sender using a tiny final CLTV)
+  \/ role = "fwd" /\ dnMode = "offchain" /\ upMode = "honest"
+        /\ \E od \in OffSoon, b \in BigHops : Offer(h + od + Max(d, MIND) + b, h + od)
 
 MShow == role = "final" /\ up = "offered" /\ CodeFinalAccept(h, eu) /\ Show(CodeClaimDeadline(eu))
 MRefuseFinal == role = "final" /\ up = "offered" /\ ~CodeFinalAccept(h, eu) /\ FailUp
@@ -119,7 +138,8 @@ MDnFailCell == ~Urgent /\ dnMode = "cell" /\ ~CHoldsNow /\ DnFail
 MDnFulfil == ~Urgent /\ dnMode = "offchain" /\ CHolds /\ (upMode = "honest" \/ LastMoment) /\ DnFulfil
 MDnFail == ~Urgent /\ dnMode = "offchain" /\ (CHolds \/ h = H0) /\ upMode = "honest" /\ DnFail
 \* an honest C that does not hold the HTLC fails it at once
-Remote == ed - H0 > 4 * MIND     \* far-far-away probes: only the acceptance matters
+\* far-far-away probes and probes with another configured delta: only the acceptance matters
+Remote == ed - H0 > 4 * MIND \/ d \in ProbeDeltas
 CMustAnswer == dnMode = "offchain" /\ dn = "pending" /\ (~CHolds \/ Remote) /\ h = H0
 
 Finished == /\ up \in {"fulfilled", "failed"} /\ (Settled \/ lost \/ suC = -2) /\ dn # "pending"
@@ -128,7 +148,6 @@ Finished == /\ up \in {"fulfilled", "failed"} /\ (Settled \/ lost \/ suC = -2) /
             \* one more block after an automatic fail-back, for a claim attempt past the deadline
             /\ ~(role = "final" /\ up = "failed" /\ dl > 0 /\ xH = -1 /\ h <= dl)
 
-Max(a, b) == IF a >= b THEN a ELSE b
 MNewBlock ==
   /\ ~Urgent /\ ~CMustAnswer /\ ~Finished /\ up # "none"
   /\ ~(dnMode = "cell" /\ dn = "pending")            \* after the release C answers at once
